@@ -599,10 +599,44 @@ def second_phase(cases, real, souts):
     return souts
 
 
+DISPATCH_TAB = None      # decision tables of the regenerated dispatch (harness/codec_dispatch.py), set by the check
+
+
+def dispatch_correspondence(ctx, c, r):
+    """the regenerated Gallina decision functions against what the real readers were observed to do"""
+    from harness import codec_dispatch as D
+    tab = DISPATCH_TAB
+    if tab is None or r[0] != "ok":
+        return
+    if c["fn"] in ("page_v1_dict", "page_v2_dict") and not c["optional"] and c["meta"]["want"]:
+        obs = D.observed_index(c, r)
+        mod = D.model_index(tab, c)
+        if obs is not None and mod is not None:
+            ctx.correspondence("regenerated index-decoder dispatch (GenDispatch.v) = decoder call observed in the real page reader "
+                               "(generic decoder called or not, allocation item size, itemsize argument)", short(c), list(mod), list(obs))
+    if c["fn"] == "read_plain_t":
+        import numpy as np
+        t = D.TYPE_IDS[c["type"]]
+        key = (t, 5, 3, c["utf"], c["stat"]) if not c["stat"] else (t, 1, 0, c["utf"], True)
+        leaf = tab["plain"].get(key)
+        if leaf is None or (c["type"] == "FIXED_LEN_BYTE_ARRAY"):
+            return
+        try:
+            dt = np.dtype(r[2])
+            obs = ["bool"] if dt.kind == "b" else ["object"] if dt.kind == "O" else ["fixed", dt.itemsize]
+        except TypeError:
+            obs = ["?", r[2]]
+        mod = {1: ["fixed", leaf[1]], 2: ["bool"], 3: ["object"], 4: ["object"]}.get(leaf[0], ["none"])
+        ctx.correspondence("regenerated read_plain dispatch (GenDispatch.v) = kind and item size of what encoding.read_plain returned",
+                           short(c), mod, obs)
+
+
 def judge(ctx, pid, c, r, mo, so, guard, sanitize, verbose=False, memory_only=False, hwo=None):
     """returns True when the property fails on this case"""
     f = FNS[c["fn"]]
     fn = c["fn"]
+    if hasattr(ctx, "gen_dir"):
+        dispatch_correspondence(ctx, c, r)
     if r[0] == "skipped":
         ctx.count("not run (the worker had already crashed too often)", fn)
         return False
